@@ -114,11 +114,13 @@ def minpos_order_tables(F, rep, rule="C07.1"):
 # =========================================================================== C07.2–C07.5 abstract scan on small windows
 
 class ScanOracles(LinOracles):
-    def __init__(self, script, m, k, p):
+    def __init__(self, script, m, k, p, concrete_scores=None):
         LinOracles.__init__(self, script)
         self.m, self.k, self.p = m, k, p
-        for j in range(m - p + 1):
-            self.assume({"s%d" % j: 1}, lo=0)
+        self.concrete_scores = concrete_scores
+        if concrete_scores is None:
+            for j in range(m - p + 1):
+                self.assume({"s%d" % j: 1}, lo=0)
 
     def on_call(self, it, fn, args, dest_ty, term, caller):
         path = fn.get("path", "")
@@ -176,6 +178,9 @@ class ScanOracles(LinOracles):
                         return mkbool(eq if name == "eq" else not eq)
                     if ia is None or ib is None:
                         raise Undecided("equality of p-mers that are not windows of the sequence")
+                    if self.concrete_scores is not None:
+                        eq = self.concrete_scores(ia) == self.concrete_scores(ib)
+                        return mkbool(eq if name == "eq" else not eq)
                     lo, hi = min(ia, ib), max(ia, ib)
                     d = {"s%d" % lo: 1, "s%d" % hi: -1}
                     # equal p-mers have equal scores: if the scores are already known to differ the p-mers differ
@@ -192,8 +197,12 @@ class ScanOracles(LinOracles):
             if at is None:
                 self.observe("scored-non-window", pm.info.get("bases") if isinstance(pm, Opaque) else None)
                 return atom_int(64, "s?")
+            if self.concrete_scores is not None:
+                return Int(64, False, val=self.concrete_scores(at))
             return atom_int(64, "s%d" % at)
         return NotImplemented
+
+    concrete_scores = None      # long-sequence rows: a fixed score pattern (position -> score); equal scores = equal p-mers
 
 
 def scan_tables(F, rep, rule="C07.2"):
@@ -266,6 +275,41 @@ def scan_tables(F, rep, rule="C07.2"):
                 problems.append("%s with p-mer scores %s: intervals (start,len,minimizer_pos) %s — %s" % (cfg, sc, [iv[:3] for iv in ivs], check_partition(ivs, sc, m, k, p)))
             elif h.find_model(atoms, lambda e: True, bound=len(atoms)) is None:
                 inc.append("%s: no model for the explored score ordering" % cfg)
+    # ---- long sequences: one block past every size constant the scanner mentions (block sizes, batch limits), with fixed score patterns —
+    # all p-mers tied (a homopolymer), and a short period with ties; the clauses of the statement are evaluated on the intervals returned
+    from .dt_graph import size_thresholds
+    if not problems:
+        for c in size_thresholds(F, body, lo=255)[-1:]:
+            for pname, pat in (("all scores equal", lambda j: 0), ("scores (7j mod 5)", lambda j: (7 * j) % 5)):
+                m, k, p = c + 9, 4, 2
+                h = ScanOracles((), m, k, p, concrete_scores=pat)
+                it = Interp(F, False, h)
+                it.max_steps = 400 * m + 1000000
+                mp0 = struct_of(F, MINPOS, {"val": Int(64, False, val=0), "pos": Int(64, False, val=0), "kmer": Opaque("P", {"pmer"}, {"at": None})})
+                me = struct_of(F, adt, {"seq": Ref(Cell(Opaque("V", {"seq"}), "seq")), "score": Opaque("F", {"score-fn"}), "k": Int(64, False, val=k), "_mp": mp0})
+                rep.evaluations += 1
+                try:
+                    out = it.call_body(body, [Ref(Cell(me, "self"))])
+                except (Undecided, Unsupported) as e:
+                    inc.append("(len=%d, k=%d, p=%d, %s): %s" % (m, k, p, pname, e))
+                    continue
+                except Diverge as e:
+                    problems.append("(len=%d, k=%d, p=%d, %s): scan diverges: %s" % (m, k, p, pname, e))
+                    continue
+                fn_ = [f["name"] for f in F.adts["msp::MspIntervalP"]["variants"][0]["fields"]]
+                try:
+                    ivs = []
+                    for e in out.elems:
+                        d = {n: e.fields[i] for i, n in enumerate(fn_)}
+                        ivs.append((d["start"].val, d["len"].val, d["minimizer_pos"].val, info_of(d["minimizer"]).get("at")))
+                except AttributeError:
+                    inc.append("(len=%d, %s): interval fields not concrete" % (m, pname))
+                    continue
+                sc = [pat(j) for j in range(m - p + 1)]
+                msg = check_partition(ivs, sc, m, k, p)
+                if msg is not None:
+                    problems.append("(len=%d, k=%d, p=%d) with %s — one block past the size constant %d the scanner mentions: %s" % (m, k, p, pname, c, msg))
+                rows += 1
     if problems:
         rep.violated(rule, "scan", "Scanner::scan: %s" % problems[0], site=F.site(body, body["line"]), witness={"kind": "row", "count": len(problems)})
     elif inc:
